@@ -18,7 +18,7 @@ func init() { registry["C20"] = propC20 }
 func propC20() *Property {
 	return &Property{
 		ID:          "C20",
-		Explanation: "Static shape, guard and identity-flow rules on the media hook. Decided: (R1) the only process-spawning call sites in the module are exec.Command and the Cmd's run method in ui.openExternally, and the program is not a constant shell; (R2) the argv handed to exec.Command is element 0 / the tail of a slice freshly made with the configured hook's length and filled by copy from config.Parsed.Media.Hook, which is itself never written; (R3) every other write into that slice is at an index known to be non-zero, on the equality edge of the element itself against a constant placeholder, and stores — by identity, no string operation in between — the link parameter for %url and the Essence/Supertype/Subtype field of the media type for %mimetype/%supertype/%subtype; the placeholder constants are exactly those documented in readme.md; (R4) Stdin is set only when no %url placeholder was substituted and then to a reader over the link itself; (R5) the media type is non-nil at every call of openExternally (every producer of a (link, type, true) triple returns a non-nil type). (R6) the only store into Media.Hook anywhere in the module is the default literal of constants that the decoder overwrites. (R7) fields of mime.MediaType values are written in package mime only, so the %mimetype, %supertype and %subtype handed to the hook describe one type. Not decided: what the operating system does with argv; the link's own content (deliberately verbatim).",
+		Explanation: "Static shape, guard and identity-flow rules on the media hook. Decided: (R1) the only process-spawning call sites in the module are exec.Command and the Cmd's run method in ui.openExternally, the program is not a constant shell, and of the exec.Cmd that exec.Command made only the standard streams are ever set (not Path, Args, Env or Dir, against which a relative program path would be resolved); (R2) the argv handed to exec.Command is element 0 / the tail of a slice freshly made with the configured hook's length and filled by copy from config.Parsed.Media.Hook, which is itself never written; (R3) every other write into that slice is at an index known to be non-zero, on the equality edge of the element itself against a constant placeholder, and stores — by identity, no string operation in between — the link parameter for %url and the Essence/Supertype/Subtype field of the media type for %mimetype/%supertype/%subtype; the placeholder constants are exactly those documented in readme.md; (R4) Stdin is set only when no %url placeholder was substituted and then to a reader over the link itself; (R5) the media type is non-nil at every call of openExternally (every producer of a (link, type, true) triple returns a non-nil type). (R6) the only store into Media.Hook anywhere in the module is the default literal of constants that the decoder overwrites. (R7) fields of mime.MediaType values are written in package mime only, so the %mimetype, %supertype and %subtype handed to the hook describe one type. Not decided: what the operating system does with argv; the link's own content (deliberately verbatim).",
 		Assumptions: []string{
 			"os/exec.Command passes its arguments to execve without interpretation",
 			"readme.md's 'Media Hook' section is the documentation of the placeholders",
@@ -146,6 +146,27 @@ func c20R1(c *Ctx) {
 		})
 	}
 	c.info("spawn_sites", n)
+	// what exec.Command made is run as it is: the only fields of an exec.Cmd the
+	// module sets are the standard streams. Path and Args are the argv; Env,
+	// SysProcAttr and above all Dir change how it is interpreted — os/exec
+	// resolves a relative program path ("./tools/open") against Dir, so a hook
+	// configured that way would run another file, or none (seed C20-2r7).
+	for _, fn := range P.Funcs {
+		eachInstr(fn, func(_ *ssa.BasicBlock, _ int, in ssa.Instruction) {
+			st, ok := in.(*ssa.Store)
+			if !ok {
+				return
+			}
+			fa, ok := st.Addr.(*ssa.FieldAddr)
+			if !ok || !isNamed(fa.X.Type(), "os/exec", "Cmd") {
+				return
+			}
+			name := fieldOf(fa).Name()
+			okField := name == "Stdin" || name == "Stdout" || name == "Stderr"
+			c.check(okField, FuncName(fn)+"/cmd-field:"+name, P.InstrPos(in), FuncName(fn),
+				"only a standard stream of the hook's command is set", "the field "+name+" of the hook's exec.Cmd is set after exec.Command built it: the program that runs, its argv or the directory a relative program path is resolved against is no longer what the configuration says")
+		})
+	}
 }
 
 func hookPath(v ssa.Value) bool {
